@@ -20,6 +20,9 @@ pub fn atol() -> f64 {
 /// largest magnitude for which sums of integer/dyadic data are exact in the build's float type
 pub const EXACT_LIMIT: f64 = 4194304.0; // 2^22
 
+/// returned by `diff_array` when the reference cannot bound its own rounding error: the case is discarded
+pub const UNDECIDABLE: &str = "UNDECIDABLE: non-finite magnitude in the reference";
+
 pub fn close(got: f64, want: f64, mag: f64, exact: bool) -> bool {
     if !got.is_finite() {
         return false;
@@ -39,6 +42,10 @@ pub fn diff_array(got: &Array, dims: &[usize], want: &[f64], mags: &[f64], exact
     let gv = got.values();
     if gv.len() != want.len() {
         return Some(format!("{} values, expected {}", gv.len(), want.len()));
+    }
+    if mags.iter().any(|m| !m.is_finite()) {
+        // an overflowing magnitude would make the tolerance infinite, i.e. the comparison vacuous
+        return Some(UNDECIDABLE.to_string());
     }
     let exact = exact && mags.iter().all(|m| m.abs() < EXACT_LIMIT);
     for i in 0..want.len() {
